@@ -28,10 +28,21 @@ static long sink_len, sink_alloc;
  * following operation must be exactly those without the interruptions */
 static int eintr_left;
 
+/* error kind (op `errno K`): the errno a source / sink that has nothing more to give or take fails
+ * with -- 0: EAGAIN (a non-blocking descriptor), 1: EIO, 2: EPIPE.  cbuf.c must treat them alike:
+ * a failure after a partial transfer is a short count, a failure before any byte is the error. */
+static int err_kind;
+static int err_no(void) { return err_kind == 1 ? EIO : err_kind == 2 ? EPIPE : EAGAIN; }
+
+static int mt_mode;     /* real threads (--mt): the hooks below switch to their thread-safe form */
+
 static ssize_t h_read(int fd, void *buf, size_t n)
 {
+    ssize_t r;
     if (eintr_left > 0) { eintr_left--; errno = EINTR; return -1; }
-    return read(fd, buf, n);
+    r = read(fd, buf, n);
+    if (r < 0 && errno == EAGAIN) errno = err_no();
+    return r;
 }
 
 /* LOCKCHK: the locking discipline of cbuf.c, checked on every public call the harness makes:
@@ -54,19 +65,91 @@ static int lk_find(pthread_mutex_t *m)
     for (int i = 0; i < lk_nheld; i++) if (lk_held[i] == m) return i;
     return -1;
 }
+/* LOCK ORDER of the calls that take two mutexes (cbuf_copy / cbuf_move): policy-free -- whatever
+ * total order the code uses, two live buffers must always be locked in the SAME order, whichever
+ * is the source; a call that takes them the other way round than an earlier call can deadlock with
+ * it (PdshVerif/Cbuf/LockOrder.lean: deadlock_free / naive_protocol_deadlocks).  The pair seen is
+ * forgotten when one of the buffers is destroyed (addresses are re-used). */
+static pthread_mutex_t *ord_first, *ord_second;
+static long ord_pairs_checked;
+static int ord_check(pthread_mutex_t *first, pthread_mutex_t *second)
+{
+    int bad = (ord_first == second && ord_second == first);
+    if (!bad) { ord_first = first; ord_second = second; }
+    ord_pairs_checked++;
+    return bad;
+}
+
+/* ---- real threads (`--mt`): thread-safe form of the hooks.  After the FIRST lock of a call that
+ * will take two, the thread waits (bounded) until the other thread has taken its own first lock or
+ * is blocked on one: with a consistent lock order the other thread blocks at once and the wait ends;
+ * with an inconsistent one both threads hold their first lock and want the other's -- the deadlock
+ * is then certain instead of a matter of timing. */
+#include <time.h>
+#include <sched.h>
+static __thread int mt_tid, mt_depth;
+static __thread pthread_mutex_t *mt_first;
+static volatile int mt_has_first[2], mt_blocked[2], mt_finished[2], mt_two[2];
+static volatile int mt_order_bad;
+static pthread_mutex_t mt_ord_mx = PTHREAD_MUTEX_INITIALIZER;
+static double mt_now(void)
+{
+    struct timespec ts;
+    clock_gettime(CLOCK_MONOTONIC, &ts);
+    return ts.tv_sec + ts.tv_nsec / 1e9;
+}
+static int mt_lock(pthread_mutex_t *m)
+{
+    int e = pthread_mutex_trylock(m);
+    if (e == EBUSY) {
+        mt_blocked[mt_tid] = 1;
+        e = pthread_mutex_lock(m);
+        mt_blocked[mt_tid] = 0;
+    }
+    if (e) return e;
+    if (mt_depth++ == 0) {
+        mt_first = m;
+        if (mt_two[mt_tid]) {
+            int o = !mt_tid;
+            double t0 = mt_now();
+            mt_has_first[mt_tid] = 1;
+            while (!mt_has_first[o] && !mt_blocked[o] && !mt_finished[o] && mt_now() - t0 < 0.002)
+                sched_yield();
+        }
+    } else {
+        pthread_mutex_lock(&mt_ord_mx);
+        if (ord_check(mt_first, m)) mt_order_bad = 1;
+        pthread_mutex_unlock(&mt_ord_mx);
+    }
+    return 0;
+}
+static int mt_unlock(pthread_mutex_t *m)
+{
+    if (--mt_depth == 0) mt_has_first[mt_tid] = 0;
+    return pthread_mutex_unlock(m);
+}
+
 static int h_mutex_lock(pthread_mutex_t *m)
 {
     int e;
+    if (mt_mode) return mt_lock(m);
     if (lk_find(m) >= 0) { lk_fail("relock-of-held-mutex"); return EDEADLK; }
     e = pthread_mutex_lock(m);
     if (e == 0) {
         lk_locks++;
+        if (lk_nheld == 1 && ord_check(lk_held[0], m)) lk_fail("lock-order-inverted");
         if (lk_nheld < LK_MAX) lk_held[lk_nheld++] = m; else lk_fail("too-many-held");
     }
     return e;
 }
 static int h_mutex_trylock(pthread_mutex_t *m)
 {
+    if (mt_mode) {
+        /* cbuf_mutex_is_locked(): the caller holds it (EBUSY); should it ever be free, give it back */
+        int e = pthread_mutex_trylock(m);
+        if (e == 0) pthread_mutex_unlock(m);
+        return e;
+    }
     /* cbuf_mutex_is_locked(): EBUSY while we hold it (the expected answer inside a call) */
     if (lk_find(m) >= 0) return EBUSY;
     lk_fail("buffer-touched-without-mutex");   /* cbuf_is_valid / helper entered unlocked */
@@ -74,7 +157,9 @@ static int h_mutex_trylock(pthread_mutex_t *m)
 }
 static int h_mutex_unlock(pthread_mutex_t *m)
 {
-    int i = lk_find(m);
+    int i;
+    if (mt_mode) return mt_unlock(m);
+    i = lk_find(m);
     if (i < 0) { lk_fail("unlock-of-mutex-not-held"); return EPERM; }
     lk_held[i] = lk_held[--lk_nheld];
     lk_unlocks++;
@@ -105,7 +190,7 @@ static ssize_t h_write(int fd, const void *buf, size_t n)
     if (eintr_left > 0 && fd == SINK_FD) { eintr_left--; errno = EINTR; return -1; }
     if (fd != SINK_FD)
         return write(fd, buf, n);
-    if (sink_cap <= 0) { errno = EAGAIN; return -1; }
+    if (sink_cap <= 0) { errno = err_no(); return -1; }
     k = n < (size_t) sink_cap ? n : (size_t) sink_cap;
     if (sink_len + (long) k > sink_alloc) {
         sink_alloc = (sink_len + (long) k) * 2 + 64;
@@ -191,9 +276,104 @@ static void stat_tail(cbuf_t cb)
 }
 static void h_destroy(cbuf_t cb)
 {
+    ord_first = ord_second = NULL;
     lk_begin();
     cbuf_destroy(cb);
     lk_end(1);
+}
+
+/* ---- `--mt ITERS [WATCHDOG]`: two REAL threads on two buffers, copying and moving in OPPOSITE
+ * directions (thread 0: a -> b, thread 1: b -> a), interleaved with single-buffer calls on both
+ * buffers.  Both buffers are NO_DROP, so nothing may ever be lost: every byte that entered (written,
+ * or duplicated by a copy) leaves exactly once (entered = read + what is left at the end) -- which
+ * also needs every copy / move to be ONE critical section of both buffers.  The main thread is the
+ * watchdog: both threads blocked on a mutex while holding one, without progress = deadlock (certain:
+ * there is nobody else to release anything); no progress at all for WATCHDOG seconds likewise. */
+static cbuf_t mt_buf[2];
+static int mt_iters;
+static volatile long mt_progress[2];
+static volatile int mt_ready[2];
+static long mt_entered[2], mt_read[2], mt_moved[2], mt_copied[2], mt_failed[2];
+static void *mt_thread(void *arg)
+{
+    int me = (int) (long) arg, i, n, nd;
+    unsigned char tmp[64];
+    cbuf_t src = mt_buf[me], dst = mt_buf[!me];
+    mt_tid = me;
+    /* start together */
+    mt_ready[me] = 1;
+    while (!mt_ready[!me]) sched_yield();
+    for (i = 0; i < mt_iters; i++) {
+        memset(tmp, 'a' + me, sizeof tmp);
+        nd = -7;
+        n = cbuf_write(src, tmp, 1 + (i * 7 + me) % 9, &nd);
+        if (n > 0) mt_entered[me] += n;
+        if ((n < 0 && errno != ENOSPC) || nd != 0) mt_failed[me]++;
+        mt_two[me] = 1;
+        nd = -7;
+        if (i % 3 == 2) {
+            n = cbuf_copy(src, dst, 1 + i % 5, &nd);
+            if (n > 0) { mt_copied[me] += n; mt_entered[me] += n; }
+        } else {
+            n = cbuf_move(src, dst, (i % 4 == 0) ? -1 : 1 + i % 6, &nd);
+            if (n > 0) mt_moved[me] += n;
+        }
+        mt_two[me] = 0;
+        if ((n < 0 && errno != ENOSPC) || nd != 0) mt_failed[me]++;
+        if (i % 2) {
+            n = cbuf_read(dst, tmp, 1 + i % 11);
+            if (n > 0) mt_read[me] += n;
+            if (n < 0) mt_failed[me]++;
+        }
+        if (cbuf_used(src) < 0 || cbuf_free(dst) < 0) mt_failed[me]++;
+        mt_progress[me]++;
+    }
+    mt_finished[me] = 1;
+    return NULL;
+}
+static int mt_main(int iters, double watchdog)
+{
+    pthread_t th[2];
+    long last[2] = { -1, -1 }, left;
+    double t_last = mt_now();
+    int i, stuck = 0;
+    mt_iters = iters;
+    mt_buf[0] = cbuf_create(8, 40);
+    mt_buf[1] = cbuf_create(16, 16);
+    cbuf_opt_set(mt_buf[0], CBUF_OPT_OVERWRITE, CBUF_NO_DROP);
+    cbuf_opt_set(mt_buf[1], CBUF_OPT_OVERWRITE, CBUF_NO_DROP);
+    mt_mode = 1;
+    for (i = 0; i < 2; i++) pthread_create(&th[i], NULL, mt_thread, (void *) (long) i);
+    while (!(mt_finished[0] && mt_finished[1])) {
+        struct timespec ts = { 0, 2000000 };
+        nanosleep(&ts, NULL);
+        if (mt_progress[0] != last[0] || mt_progress[1] != last[1]) {
+            last[0] = mt_progress[0]; last[1] = mt_progress[1];
+            t_last = mt_now();
+            stuck = 0;
+            continue;
+        }
+        /* each holds its first mutex and is blocked on another one */
+        stuck = (mt_blocked[0] && mt_blocked[1] && mt_has_first[0] && mt_has_first[1]) ? stuck + 1 : 0;
+        if (stuck >= 100 || mt_now() - t_last > watchdog) {
+            printf("mt DEADLOCK after %ld+%ld iterations (holds-first=%d,%d blocked=%d,%d order_inverted=%d)\n",
+                   last[0], last[1], mt_has_first[0], mt_has_first[1], mt_blocked[0], mt_blocked[1], mt_order_bad);
+            fflush(stdout);
+            _exit(4);
+        }
+    }
+    for (i = 0; i < 2; i++) pthread_join(th[i], NULL);
+    mt_mode = 0;
+    left = cbuf_used(mt_buf[0]) + cbuf_used(mt_buf[1]);
+    printf("mt done iters=%d conserved=%d failed=%ld order_inverted=%d | entered=%ld read=%ld left=%ld pairs=%ld moved=%ld copied=%ld\n",
+           iters, mt_entered[0] + mt_entered[1] == mt_read[0] + mt_read[1] + left,
+           mt_failed[0] + mt_failed[1], mt_order_bad,
+           mt_entered[0] + mt_entered[1], mt_read[0] + mt_read[1], left, ord_pairs_checked,
+           mt_moved[0] + mt_moved[1], mt_copied[0] + mt_copied[1]);
+    fflush(stdout);
+    h_destroy(mt_buf[0]);
+    h_destroy(mt_buf[1]);
+    return 0;
 }
 
 int main(int argc, char **argv)
@@ -204,6 +384,8 @@ int main(int argc, char **argv)
     cbuf_t bufs[2] = { NULL, NULL };
     int second = 0;
 
+    if (argc > 2 && strcmp(argv[1], "--mt") == 0)
+        return mt_main(atoi(argv[2]), argc > 3 ? atof(argv[3]) : 20.0);
     if (argc > 1 && strcmp(argv[1], "--meta") == 0) {
         cbuf_t t = cbuf_create(8, 8);
         printf("%d\n", t->alloc - t->size);
@@ -224,11 +406,17 @@ int main(int argc, char **argv)
             bufs[0] = bufs[1] = cb = NULL;
             second = 0;
             eintr_left = 0;
+            err_kind = 0;
             printf("ok"); lk_mark(); printf("\n");
             continue;
         }
         if (!strcmp(op, "eintr")) {
             eintr_left = atoi(a1);
+            printf("ok\n");
+            continue;
+        }
+        if (!strcmp(op, "errno")) {
+            err_kind = atoi(a1);
             printf("ok\n");
             continue;
         }
@@ -282,7 +470,7 @@ int main(int argc, char **argv)
             fcntl(pfd[0], F_SETFL, O_NONBLOCK);
             fcntl(pfd[1], F_SETPIPE_SZ, 1 << 20);
             if (len > 0 && write(pfd[1], b, len) != len) { perror("short pipe write"); return 2; }
-            if (atoi(a3)) { close(pfd[1]); pfd[1] = -1; }
+            if (atoi(a3) == 1) { close(pfd[1]); pfd[1] = -1; }  /* 1: EOF behind the data; else: error */
             n = CALL1(cbuf_write_from_fd(cb, pfd[0], atoi(a1), &nd));
             printf("%d %d", n, nd); stat_tail(cb);
             close(pfd[0]);
